@@ -99,7 +99,8 @@ Lemma shf_flush_unfold k ft now :
       Ok (shf_ph6 (shf_k5 k4 sb' a) a (shf_cw k3) (shf_resent k4), f_next a, flush_buffer (f_st a))
     end end end
   end.
-Proof. reflexivity. Qed.
+Proof. (* kernel conversion (checked at Qed); the tactic-level unifier does not terminate in reasonable time *)
+  exact_no_check (eq_refl (flush k ft now)). Qed.
 
 (* ------------------------------------------------------------------ *)
 (* headers                                                             *)
@@ -146,36 +147,34 @@ Proof.
   intros Hm Hb Hn. induction 1 as [|a1 a2 t1 t2 Ha Ht IH]; intros h1 h2 st1 st2 h1' st1' Hh Hst E.
   - cbn [flush_acks] in *. inversion E; subst. do 2 eexists. split; [reflexivity|split; assumption].
   - destruct a1 as [sn1 ts1]. destruct a2 as [sn2 ts2].
-    destruct Ha as ((Hsn & Hts) & Hu1 & Hu2). cbn [fst snd] in *.
+    destruct Ha as ((Hsn & Hts) & Hu1 & Hu2). cbn [fst snd] in *. subst sn2 ts2.
     cbn [flush_acks] in *.
     assert (Hnil : (match t2 with [] => true | _ => false end) = (match t1 with [] => true | _ => false end)).
     { destruct Ht; reflexivity. }
-    rewrite Hnil, Hsn, Hn, itimediff_sh.
+    rewrite Hnil, Hn, itimediff_sh.
     pose proof (shf_make_space p k1 k2 st1 st2 c_IKCP_OVERHEAD Hm Hst) as Hsp.
     destruct ((itimediff sn1 (rcv_nxt k1) >=? 0) || (match t1 with [] => true | _ => false end)).
     + destruct Hh as (H1 & H2 & H3 & H4 & H5 & H6 & H7 & H8 & H9 & H10 & H11 & H12 & H13 & H14).
       set (n1 := mkSeg (s_conv h1) (s_cmd h1) (s_frg h1) (s_wnd h1) ts1 sn1 (s_una h1) 0 0 0 0 0 []) in *.
-      set (n2 := mkSeg (s_conv h2) (s_cmd h2) (s_frg h2) (s_wnd h2) ts2 sn2 (s_una h2) 0 0 0 0 0 []).
+      set (n2 := mkSeg (s_conv h2) (s_cmd h2) (s_frg h2) (s_wnd h2) (sh (cp p) ts1) (sh (kp p) sn1) (s_una h2) 0 0 0 0 0 []).
       assert (Hw1 : seg_wf n1).
       { unfold seg_wf, n1. cbn [s_conv s_cmd s_frg s_wnd s_ts s_sn s_una s_data]. rewrite H3, H5.
         unfold c_IKCP_CMD_ACK, c_mtuLimit. shf_split; try assumption; try lia; try apply shf_bl_nil.
         rewrite blen_nil. lia. }
       assert (Hw2 : seg_wf n2).
-      { unfold seg_wf, n2. cbn [s_conv s_cmd s_frg s_wnd s_ts s_sn s_una s_data]. rewrite H4, H6, <- H1, <- H7, H9, Hsn, Hts.
+      { unfold seg_wf, n2. cbn [s_conv s_cmd s_frg s_wnd s_ts s_sn s_una s_data]. rewrite H4, H6, <- H1, <- H7, H9.
         unfold c_IKCP_CMD_ACK, c_mtuLimit. shf_split; try assumption; try lia; try apply shf_sh_u32; try apply shf_bl_nil.
         rewrite blen_nil. lia. }
       assert (Hr : R_out_seg p n1 n2).
       { unfold R_out_seg, same_hdr, n1, n2. cbn [s_conv s_cmd s_frg s_wnd s_ts s_sn s_una s_data].
         shf_split; try assumption; try reflexivity; try congruence.
         - rewrite H3. unfold c_IKCP_CMD_ACK, c_IKCP_CMD_PUSH. intros F; discriminate.
-        - rewrite H3. unfold c_IKCP_CMD_ACK, c_IKCP_CMD_PUSH. intros F; discriminate.
-        - intros _. exact Hsn.
-        - intros _. exact Hts. }
+        - intros _. split; reflexivity. }
       destruct (stage_write k1 (make_space k1 st1 c_IKCP_OVERHEAD) n1) as [st1a|w] eqn:Ew; [|discriminate].
       destruct (shf_stage_write p k1 k2 _ _ n1 n2 st1a Hb Hsp Hw1 Hw2 Hr Ew) as (st2a & Ew2 & Hsta).
       fold n2. rewrite Ew2. eapply IH; [|exact Hsta|exact E].
       unfold shf_hd, n1, n2. cbn [s_conv s_cmd s_frg s_wnd s_ts s_sn s_una s_data].
-      rewrite Hsn, Hts. shf_split; try assumption; apply shf_sh_u32.
+      shf_split; try assumption; try apply shf_sh_u32; lia.
     + eapply IH; [exact Hh|exact Hsp|exact E].
 Qed.
 
@@ -225,14 +224,17 @@ Proof.
   destruct (negb (Z.land (probe k1) flag =? 0)); [|intros E; inversion E; subst; eexists; split; [reflexivity|exact Hst]].
   destruct Hh as (H1 & H2 & H3 & H4 & H5 & H6 & H7 & H8 & H9 & H10 & H11 & H12 & H13 & H14).
   intros E.
-  apply (shf_stage_write p k1 k2 _ _ _ _ _ Cbl (shf_make_space p k1 k2 st1 st2 c_IKCP_OVERHEAD Cmtu Hst)) with (5 := E).
-  - unfold seg_wf, shf_hdr. cbn [s_conv s_cmd s_frg s_wnd s_ts s_sn s_una s_data]. rewrite H5.
-    unfold c_mtuLimit. shf_split; try assumption; try lia; try apply shf_bl_nil. rewrite blen_nil. lia.
-  - unfold seg_wf, shf_hdr. cbn [s_conv s_cmd s_frg s_wnd s_ts s_sn s_una s_data]. rewrite H6, <- H1, <- H7, H9.
+  assert (Hw1 : seg_wf (shf_hdr h1 c)).
+  { unfold seg_wf, shf_hdr. cbn [s_conv s_cmd s_frg s_wnd s_ts s_sn s_una s_data]. rewrite H5.
+    unfold c_mtuLimit. shf_split; try assumption; try lia; try apply shf_bl_nil. rewrite blen_nil. lia. }
+  assert (Hw2 : seg_wf (shf_hdr h2 c)).
+  { unfold seg_wf, shf_hdr. cbn [s_conv s_cmd s_frg s_wnd s_ts s_sn s_una s_data]. rewrite H6, <- H1, <- H7, H9.
     unfold c_mtuLimit. shf_split; try assumption; try lia; try apply shf_sh_u32; try apply shf_bl_nil.
-    rewrite blen_nil. lia.
-  - unfold R_out_seg, same_hdr, shf_hdr. cbn [s_conv s_cmd s_frg s_wnd s_ts s_sn s_una s_data].
-    shf_split; try assumption; try reflexivity; try congruence; intros F; contradiction.
+    rewrite blen_nil. lia. }
+  assert (Hr : R_out_seg p (shf_hdr h1 c) (shf_hdr h2 c)).
+  { unfold R_out_seg, same_hdr, shf_hdr. cbn [s_conv s_cmd s_frg s_wnd s_ts s_sn s_una s_data].
+    shf_split; try assumption; try reflexivity; try congruence; intros F; contradiction. }
+  exact (shf_stage_write p k1 k2 _ _ _ _ _ Cbl (shf_make_space p k1 k2 st1 st2 c_IKCP_OVERHEAD Cmtu Hst) Hw1 Hw2 Hr E).
 Qed.
 
 (* ------------------------------------------------------------------ *)
@@ -270,7 +272,7 @@ Proof.
       apply shf_F2_snoc; [exact Hsb|].
       destruct Hs as ((Hfrg & Hdata & Hxmit & Hacked & Hfa & Hrto) & (Hf1 & Hbl1 & Hlen1) & Hx0 & Ha0).
       unfold shf_sbw, R_sq, shf_dwf. cbn [s_conv s_cmd s_frg s_wnd s_ts s_sn s_una s_data s_xmit s_acked s_fastack s_rto].
-      shf_split; try assumption; try reflexivity. left. split; assumption.
+      shf_split; try assumption; try reflexivity; lia.
 Qed.
 
 Lemma shf_cw_eq p k1 k2 : shf_R p k1 k2 -> shf_cw k1 = shf_cw k2.
@@ -342,7 +344,7 @@ Lemma shf_flush_seg_unfold k h resent newsegs now s a :
   if s_acked s =? 1 then Ok (s, a)
   else let '(ns, rto, rts, fa, a1) := shf_decide k resent newsegs now s a in
        shf_emit k h now s ns rto rts fa a1.
-Proof. reflexivity. Qed.
+Proof. exact_no_check (eq_refl (flush_seg k h resent newsegs now s a)). Qed.
 
 Lemma shf_decide_sim p k1 k2 resent newsegs now s1 s2 a1 a2 ns rto rts fa a1' :
   shf_cfg k1 k2 -> R_sq s1 s2 -> (s_xmit s1 <> 0 -> s_resendts s2 = sh (co p) (s_resendts s1)) ->
@@ -363,17 +365,17 @@ Proof.
     { intros E; inversion E; subst. eexists. rewrite shf_sh_add. split; [reflexivity|].
       split; [|split; [contradiction|discriminate]].
       unfold shf_fl. cbn [f_st f_change f_lost f_fast f_early f_next f_dead]. rewrite A1, A3.
-      shf_split; try assumption; reflexivity. }
+      shf_split; try assumption; try reflexivity; lia. }
     destruct ((s_fastack s1 >? 0) && negb (s_fastack s1 =? 4294967295) && (newsegs =? 0)).
     { intros E; inversion E; subst. eexists. rewrite shf_sh_add. split; [reflexivity|].
       split; [|split; [contradiction|discriminate]].
       unfold shf_fl. cbn [f_st f_change f_lost f_fast f_early f_next f_dead]. rewrite A1, A4.
-      shf_split; try assumption; reflexivity. }
+      shf_split; try assumption; try reflexivity; lia. }
     destruct (itimediff now (s_resendts s1) >=? 0).
     { cbv zeta. intros E; inversion E; subst. eexists. rewrite shf_sh_add. split; [reflexivity|].
       split; [|split; [contradiction|discriminate]].
       unfold shf_fl. cbn [f_st f_change f_lost f_fast f_early f_next f_dead]. rewrite A2.
-      shf_split; try assumption; reflexivity. }
+      shf_split; try assumption; try reflexivity; lia. }
     intros E; inversion E; subst. eexists. split; [reflexivity|].
     split; [exact Ha|]. split; [contradiction|]. intros _. shf_split; reflexivity.
 Qed.
@@ -409,7 +411,7 @@ Proof.
     assert (Hsb' : shf_sb p n1 n2).
     { unfold shf_sb, R_sb, R_sq, shf_dwf, n1, n2.
       cbn [s_conv s_cmd s_frg s_wnd s_ts s_sn s_una s_data s_xmit s_acked s_fastack s_rto s_resendts].
-      rewrite <- Hxmit. shf_split; try assumption; reflexivity. }
+      rewrite <- Hxmit. shf_split; try assumption; try reflexivity; lia. }
     rewrite <- Hdata.
     destruct (stage_write k1 (make_space k1 (f_st a1) (c_IKCP_OVERHEAD + blen (s_data s1))) n1) as [st1a|w] eqn:Ew;
       [|discriminate].
@@ -417,18 +419,19 @@ Proof.
                 (shf_make_space p k1 k2 _ _ (c_IKCP_OVERHEAD + blen (s_data s1)) Cmtu Hst) Hw1 Hw2 Hr Ew)
       as (st2a & Ew2 & Hsta).
     rewrite Ew2. cbn [f_st f_change f_lost f_fast f_early f_next f_dead].
-    unfold n1 at 1 2 4, n2 at 1 2 4. cbn [s_resendts s_xmit].
+    change (s_resendts n1) with rts. change (s_resendts n2) with (sh (co p) rts).
+    change (s_xmit n1) with (u32 (s_xmit s1 + 1)). change (s_xmit n2) with (u32 (s_xmit s2 + 1)).
     rewrite itimediff_sh, <- Hxmit, <- Cdl, <- A1, <- A2, <- A3, <- A4, <- A5, <- A6.
     intros E; inversion E; subst. do 2 eexists. split; [reflexivity|]. split; [exact Hsb'|].
-    unfold shf_fl. cbn [f_st f_change f_lost f_fast f_early f_next f_dead]. shf_split; try assumption; reflexivity.
+    unfold shf_fl. cbn [f_st f_change f_lost f_fast f_early f_next f_dead]. shf_split; try assumption; try reflexivity; lia.
   - destruct (Hstrong eq_refl) as ((_ & _ & _ & _ & Hts & Hrs & Hun & Hwn) & _).
     cbn [f_st f_change f_lost f_fast f_early f_next f_dead s_resendts].
     rewrite itimediff_sh, <- A1, <- A2, <- A3, <- A4, <- A5, <- A6.
     intros E; inversion E; subst. do 2 eexists. split; [reflexivity|]. split.
     + unfold shf_sb, R_sb, R_sq, shf_dwf.
       cbn [s_conv s_cmd s_frg s_wnd s_ts s_sn s_una s_data s_xmit s_acked s_fastack s_rto s_resendts].
-      shf_split; try assumption; reflexivity.
-    + unfold shf_fl. cbn [f_st f_change f_lost f_fast f_early f_next f_dead]. shf_split; try assumption; reflexivity.
+      shf_split; try assumption; try reflexivity; lia.
+    + unfold shf_fl. cbn [f_st f_change f_lost f_fast f_early f_next f_dead]. shf_split; try assumption; try reflexivity; lia.
 Qed.
 
 Lemma shf_flush_seg_sim p k1 k2 h1 h2 resent newsegs now s1 s2 a1 a2 s1' a1' :
@@ -475,4 +478,124 @@ Proof.
     destruct (IH _ _ _ _ Ham Et) as (t2' & a2f & Et2 & Ht' & Haf).
     rewrite Et2. inversion E; subst. do 2 eexists. split; [reflexivity|].
     split; [constructor; assumption|exact Haf].
+Qed.
+
+Lemma shf_ph4_strong p k1 k2 ft sq1 sb1 nxt1 ns :
+  shf_R p k1 k2 -> (ft =? FLUSH_FULL) = false -> shf_ph4 k1 ft = (sq1, sb1, nxt1, ns) ->
+  sb1 = snd_buf k1 /\ shf_ph4 k2 ft = (snd_queue k2, snd_buf k2, snd_nxt k2, 0).
+Proof.
+  intros H Hf. unfold shf_ph4. rewrite Hf. intros E; inversion E; subst. split; reflexivity.
+Qed.
+
+Lemma shf_resent_eq k1 k2 : shf_cfg k1 k2 -> shf_resent k1 = shf_resent k2.
+Proof. intros Hc. shf_dcfg Hc. unfold shf_resent. rewrite <- Cfr. reflexivity. Qed.
+
+Lemma shf_ph5_sim p k1 k2 h1 h2 ft ns now st1 st2 sb1' a1' :
+  shf_cfg k1 k2 -> Forall2 (shf_sbw p) (snd_buf k1) (snd_buf k2) ->
+  ((ft =? FLUSH_FULL) = false -> Forall2 (shf_sb p) (snd_buf k1) (snd_buf k2)) ->
+  shf_hd p h1 h2 -> is_u32 now -> shf_st p st1 st2 ->
+  shf_ph5 k1 h1 ft ns now st1 = Ok (sb1', a1') ->
+  exists sb2' a2', shf_ph5 k2 h2 ft ns (sh (co p) now) st2 = Ok (sb2', a2') /\
+                   Forall2 (shf_sb p) sb1' sb2' /\ shf_fl p a1' a2'.
+Proof.
+  intros Hc Hw Hs Hh Hnow Hst. unfold shf_ph5. cbv zeta.
+  rewrite <- (shf_resent_eq _ _ Hc). pose proof Hc as Hc'. shf_dcfg Hc'. rewrite <- Civ.
+  assert (Ha0 : shf_fl p (mkFl st1 0 0 0 0 (interval k1) false) (mkFl st2 0 0 0 0 (interval k1) false)).
+  { unfold shf_fl. cbn [f_st f_change f_lost f_fast f_early f_next f_dead]. shf_split; try reflexivity. exact Hst. }
+  destruct (ft =? FLUSH_FULL).
+  - intros E. eapply shf_flush_segs_sim; eassumption.
+  - intros E; inversion E; subst. do 2 eexists. split; [reflexivity|]. split; [apply Hs; reflexivity|exact Ha0].
+Qed.
+
+(* ------------------------------------------------------------------ *)
+(* phases 5b / 6                                                       *)
+(* ------------------------------------------------------------------ *)
+Lemma shf_k5_sim p k1 k2 sq1 sq2 sb1 sb2 nxt1 nxt2 sb1' sb2' a1 a2 :
+  shf_R p k1 k2 -> Forall2 shf_sq sq1 sq2 -> Forall2 (shf_sb p) sb1' sb2' ->
+  nxt2 = sh (ko p) nxt1 -> is_u32 nxt1 -> f_dead a1 = f_dead a2 ->
+  shf_R p (shf_k5 (shf_k4 k1 sq1 sb1 nxt1) sb1' a1) (shf_k5 (shf_k4 k2 sq2 sb2 nxt2) sb2' a2).
+Proof.
+  intros H Hsq Hsb Hn Hn32 Hd. unfold shf_k5. cbv zeta. rewrite <- Hd.
+  change (set_snd_buf (shf_k4 k1 sq1 sb1 nxt1) sb1') with (shf_k4 k1 sq1 sb1' nxt1).
+  change (set_snd_buf (shf_k4 k2 sq2 sb2 nxt2) sb2') with (shf_k4 k2 sq2 sb2' nxt2).
+  assert (H5 : shf_R p (shf_k4 k1 sq1 sb1' nxt1) (shf_k4 k2 sq2 sb2' nxt2)).
+  { unfold shf_k4. apply shf_R_set_snd_nxt; [|exact Hn|exact Hn32].
+    apply shf_R_set_queues; try assumption; [exact (G_rq _ _ _ H)|exact (G_rb _ _ _ H)]. }
+  destruct (f_dead a1); [|exact H5].
+  pose proof (G_cfg _ _ _ H5) as Hc. shf_dcfg Hc. rewrite <- Cupd.
+  apply shf_R_set_timer; [exact H5|exact (G_tsflush _ _ _ H5)|exact (G_tsflush0 _ _ _ H5)].
+Qed.
+
+Lemma shf_ph6_sim p k1 k2 a1 a2 cw resent :
+  shf_R p k1 k2 -> f_change a1 = f_change a2 -> f_lost a1 = f_lost a2 ->
+  shf_R p (shf_ph6 k1 a1 cw resent) (shf_ph6 k2 a2 cw resent).
+Proof.
+  intros H A1 A2. unfold shf_ph6. pose proof (G_cfg _ _ _ H) as Hc. shf_dcfg Hc.
+  rewrite <- Cnc, <- A1, <- A2. destruct (nocwnd k1 =? 0); [|exact H]. cbv zeta.
+  rewrite (G_nxt _ _ _ H), (G_una _ _ _ H), shf_sh_sub, <- Crmt, <- Cmss.
+  match goal with |- shf_R p (if cwnd ?x <? 1 then _ else _) (if cwnd ?y <? 1 then _ else _) =>
+    set (kb1 := x); set (kb2 := y) end.
+  assert (Hb : shf_R p kb1 kb2).
+  { unfold kb1, kb2.
+    match goal with |- shf_R p (if _ then set_cc ?x _ _ _ _ else _) (if _ then set_cc ?y _ _ _ _ else _) =>
+      set (ka1 := x); set (ka2 := y) end.
+    assert (Ha : shf_R p ka1 ka2).
+    { unfold ka1, ka2. destruct (f_change a1 >? 0); [apply shf_R_set_cc|]; exact H. }
+    clearbody ka1 ka2. pose proof (G_cfg _ _ _ Ha) as Hc'.
+    destruct Hc' as (_ & _ & Cmss' & _ & _ & _ & Crmt' & _).
+    rewrite <- Crmt', <- Cmss'. destruct (f_lost a1 >? 0); [apply shf_R_set_cc|]; exact Ha. }
+  clearbody kb1 kb2. pose proof (G_cfg _ _ _ Hb) as Hc'.
+  destruct Hc' as (_ & _ & Cmss' & _ & _ & _ & Crmt' & Ccw' & _ & Csst' & _).
+  rewrite <- Crmt', <- Cmss', <- Ccw', <- Csst'. destruct (cwnd kb1 <? 1); [apply shf_R_set_cc|]; exact Hb.
+Qed.
+
+(* ------------------------------------------------------------------ *)
+(* flush                                                               *)
+(* ------------------------------------------------------------------ *)
+Lemma shf_cfg_k4 p k1 k2 sq1 sq2 sb1 sb2 n1 n2 :
+  shf_R p k1 k2 -> shf_cfg (shf_k4 k1 sq1 sb1 n1) (shf_k4 k2 sq2 sb2 n2).
+Proof. intros H. exact (G_cfg _ _ _ H). Qed.
+
+Lemma shf_flush_sim p k1 k2 ft now k1' nx o1 :
+  shf_R p k1 k2 -> is_u32 now -> flush k1 ft now = Ok (k1', nx, o1) ->
+  exists k2' o2, flush k2 ft (sh (co p) now) = Ok (k2', nx, o2) /\ shf_R p k1' k2' /\
+                 Forall2 (shf_dg p) o1 o2.
+Proof.
+  intros H Hnow. rewrite !shf_flush_unfold.
+  destruct (shf_ph1 k1 ft) as [[[h1 st1] ka1]|w] eqn:E1; [|discriminate].
+  destruct (shf_ph1_sim p k1 k2 ft h1 st1 ka1 H E1) as (h2 & st2 & ka2 & E1' & Hh & Hst & Ha).
+  rewrite E1'. cbv zeta.
+  pose proof (shf_ph2_sim p ka1 ka2 now Ha) as Hb.
+  set (kb1 := shf_ph2 ka1 now) in *. set (kb2 := shf_ph2 ka2 (sh (co p) now)) in *. clearbody kb1 kb2.
+  destruct (shf_ph3 kb1 h1 st1 c_IKCP_ASK_SEND c_IKCP_CMD_WASK) as [st1b|w] eqn:E3; [|discriminate].
+  assert (W1 : 0 <= c_IKCP_CMD_WASK < 256) by (unfold c_IKCP_CMD_WASK; lia).
+  assert (W2 : c_IKCP_CMD_WASK <> c_IKCP_CMD_PUSH) by (unfold c_IKCP_CMD_WASK, c_IKCP_CMD_PUSH; lia).
+  assert (W3 : c_IKCP_CMD_WASK <> c_IKCP_CMD_ACK) by (unfold c_IKCP_CMD_WASK, c_IKCP_CMD_ACK; lia).
+  assert (V1 : 0 <= c_IKCP_CMD_WINS < 256) by (unfold c_IKCP_CMD_WINS; lia).
+  assert (V2 : c_IKCP_CMD_WINS <> c_IKCP_CMD_PUSH) by (unfold c_IKCP_CMD_WINS, c_IKCP_CMD_PUSH; lia).
+  assert (V3 : c_IKCP_CMD_WINS <> c_IKCP_CMD_ACK) by (unfold c_IKCP_CMD_WINS, c_IKCP_CMD_ACK; lia).
+  destruct (shf_ph3_sim p kb1 kb2 h1 h2 st1 st2 c_IKCP_ASK_SEND c_IKCP_CMD_WASK st1b Hb Hh Hst W1 W2 W3 E3)
+    as (st2b & E3' & Hstb).
+  rewrite E3'.
+  destruct (shf_ph3 kb1 h1 st1b c_IKCP_ASK_TELL c_IKCP_CMD_WINS) as [st1c|w] eqn:E4; [|discriminate].
+  destruct (shf_ph3_sim p kb1 kb2 h1 h2 st1b st2b c_IKCP_ASK_TELL c_IKCP_CMD_WINS st1c Hb Hh Hstb V1 V2 V3 E4)
+    as (st2c & E4' & Hstc).
+  rewrite E4'.
+  pose proof (shf_R_set_probe_flags p kb1 kb2 0 Hb) as Hc.
+  set (kc1 := set_probe_flags kb1 0) in *. set (kc2 := set_probe_flags kb2 0) in *. clearbody kc1 kc2.
+  destruct (shf_ph4 kc1 ft) as [[[sq1 sb1] nxt1] ns] eqn:E5.
+  destruct (shf_ph4_sim p kc1 kc2 ft sq1 sb1 nxt1 ns Hc E5) as (sq2 & sb2 & nxt2 & E5' & Hsq & Hsbw & Hn & Hn32).
+  rewrite E5'.
+  destruct (shf_ph5 (shf_k4 kc1 sq1 sb1 nxt1) h1 ft ns now st1c) as [[sb1' a1]|w] eqn:E6; [|discriminate].
+  assert (Hstrong : (ft =? FLUSH_FULL) = false ->
+                    Forall2 (shf_sb p) (snd_buf (shf_k4 kc1 sq1 sb1 nxt1)) (snd_buf (shf_k4 kc2 sq2 sb2 nxt2))).
+  { intros Hf. destruct (shf_ph4_strong p kc1 kc2 ft sq1 sb1 nxt1 ns Hc Hf E5) as (X1 & X2).
+    rewrite X2 in E5'. inversion E5'; subst. exact (G_sndb _ _ _ Hc). }
+  destruct (shf_ph5_sim p (shf_k4 kc1 sq1 sb1 nxt1) (shf_k4 kc2 sq2 sb2 nxt2) h1 h2 ft ns now st1c st2c sb1' a1
+              (shf_cfg_k4 p kc1 kc2 _ _ _ _ _ _ Hc) Hsbw Hstrong Hh Hnow Hstc E6) as (sb2' & a2 & E6' & Hsb' & Hfl).
+  rewrite E6'. destruct Hfl as (Hsta & A1 & A2 & A3 & A4 & A5 & A6).
+  rewrite <- (shf_cw_eq _ _ _ Hc), <- (shf_resent_eq _ _ (shf_cfg_k4 p kc1 kc2 sq1 sq2 sb1 sb2 nxt1 nxt2 Hc)), <- A5.
+  intros E; inversion E; subst. do 2 eexists. split; [reflexivity|].
+  split; [|apply shf_flush_buffer; exact Hsta].
+  apply shf_ph6_sim; [|exact A1|exact A2]. apply shf_k5_sim; assumption.
 Qed.
